@@ -37,6 +37,7 @@ type FuncSpec struct {
 	AssignGlobals []string
 	Loops     map[string]*LoopSpec
 	Inline    bool
+	Pure      bool
 	OpaqueFns []string
 	Trusted   bool
 	Opaque    bool
@@ -400,6 +401,13 @@ func (x *Exec) useContract(fr *Frame, fn *ssa.Function, sp *FuncSpec, args []Val
 	if sp.Trusted {
 		x.assumedCtr[fnName(fn)] = true
 	}
+	memoKey := ""
+	if sp.Pure {
+		memoKey = x.pureKey(fn, args)
+		if m, ok := x.pureMemo[memoKey]; ok {
+			return x.cloneResult(m.result, m.snap, map[*Object]*Object{})
+		}
+	}
 	cm := &calleeCtx{fn: fn, caller: x.funcName()}
 	x.calleeMode = append(x.calleeMode, cm)
 	defer func() { x.calleeMode = x.calleeMode[:len(x.calleeMode)-1] }()
@@ -413,7 +421,97 @@ func (x *Exec) useContract(fr *Frame, fn *ssa.Function, sp *FuncSpec, args []Val
 		unsup("contract harness of %s did not reach its call site", fn)
 	}
 	x.substituteEnsures(cm, nA, pc0)
+	if memoKey != "" && x.dry == 0 {
+		if x.pureMemo == nil {
+			x.pureMemo = map[string]*pureEntry{}
+		}
+		snap := map[*Object]Value{}
+		x.snapshotResult(cm.result, snap)
+		x.pureMemo[memoKey] = &pureEntry{result: cm.result, snap: snap}
+	}
 	return cm.result
+}
+
+// pureKey identifies a call of a deterministic function: the identity of its
+// arguments and the write-version of every object reachable from them.
+func (x *Exec) pureKey(fn *ssa.Function, args []Value) string {
+	var sb strings.Builder
+	sb.WriteString(fnName(fn))
+	seen := map[*Object]bool{}
+	var objs []*Object
+	var walk func(v Value, depth int)
+	walk = func(v Value, depth int) {
+		if depth > 8 {
+			return
+		}
+		switch vv := v.(type) {
+		case Scalar:
+			fmt.Fprintf(&sb, "|s%d", vv.T.id)
+		case PtrV:
+			if vv.Obj == nil {
+				sb.WriteString("|nil")
+				return
+			}
+			fmt.Fprintf(&sb, "|p%d", vv.Obj.id)
+			for _, pe := range vv.Path {
+				if pe.Idx != nil {
+					fmt.Fprintf(&sb, "[%d]", pe.Idx.id)
+				} else {
+					fmt.Fprintf(&sb, ".%d", pe.Field)
+				}
+			}
+			fmt.Fprintf(&sb, "n%d", vv.Nil.id)
+			if !seen[vv.Obj] {
+				seen[vv.Obj] = true
+				objs = append(objs, vv.Obj)
+				if hv, ok := x.st.heap.m[vv.Obj]; ok {
+					walk(hv, depth+1)
+				}
+			}
+		case SliceV:
+			if vv.Obj == nil {
+				sb.WriteString("|nilslice")
+				return
+			}
+			fmt.Fprintf(&sb, "|l%d.%d.%d", vv.Obj.id, vv.Off.id, vv.Len.id)
+			if !seen[vv.Obj] {
+				seen[vv.Obj] = true
+				objs = append(objs, vv.Obj)
+				if hv, ok := x.st.heap.m[vv.Obj]; ok {
+					if _, isSym := hv.(SymArrV); !isSym {
+						walk(hv, depth+1)
+					} else {
+						fmt.Fprintf(&sb, "a%d", hv.(SymArrV).Arr.id)
+					}
+				}
+			}
+		case StructV:
+			for _, f := range vv.F {
+				walk(f, depth+1)
+			}
+		case ArrayV:
+			for _, e := range vv.E {
+				walk(e, depth+1)
+			}
+		case ArrayRef:
+			walk(x.heapGet(vv.Obj), depth+1)
+		case IfaceV:
+			fmt.Fprintf(&sb, "|i%d", vv.Nil.id)
+			if vv.V != nil {
+				walk(vv.V, depth+1)
+			}
+		case *ChoiceV:
+			fmt.Fprintf(&sb, "|c%d", vv.C.id)
+			walk(vv.A, depth+1)
+			walk(vv.B, depth+1)
+		case UnknownV:
+			sb.WriteString("|u")
+		}
+	}
+	for _, a := range args {
+		walk(a, 0)
+	}
+	return sb.String()
 }
 
 // substituteEnsures turns assumed clauses of the form fresh == term (the
@@ -556,8 +654,8 @@ func (x *Exec) substValue(v Value, sub map[int]*Term) Value {
 			e[i] = x.substValue(vv.E[i], sub)
 		}
 		return TupleV{e}
-	case ChoiceV:
-		return ChoiceV{C: Subst(vv.C, sub), A: x.substValue(vv.A, sub), B: x.substValue(vv.B, sub)}
+	case *ChoiceV:
+		return &ChoiceV{C: Subst(vv.C, sub), A: x.substValue(vv.A, sub), B: x.substValue(vv.B, sub)}
 	}
 	return v
 }
@@ -655,13 +753,13 @@ func (x *Exec) havocLocation(loc Value, name string) {
 			}
 			x.st.heap.m[l.Obj] = ArrayV{e}
 		case SymArrV:
-			arr := Fresh(name+"!arr", Arr(bv.W))
+			fresh := Fresh(name+"!arr", Arr(bv.W))
 			k := FreshBound("k", BV(64))
 			outside := Or(BvUlt(k, l.Off), BvUle(BvAdd(l.Off, l.Len), k))
-			x.assume(Forall([]*Term{k}, Imp(outside, Eq(Select(arr, k), Select(bv.Arr, k)))))
+			arr := DefArr(bv.W, k, Ite(outside, Select(bv.Arr, k), Select(fresh, k)))
 			x.st.heap.m[l.Obj] = SymArrV{Arr: arr, Len: bv.Len, W: bv.W}
 		}
-	case ChoiceV:
+	case *ChoiceV:
 		unsup("assigns through a choice pointer")
 	default:
 		unsup("assigns of %T", loc)
@@ -679,6 +777,9 @@ func (x *Exec) proveCall(fr *Frame, cm *calleeCtx, fn *ssa.Function, args []Valu
 	log := map[*Object]bool{}
 	x.writeLog = append(x.writeLog, log)
 	x.inlined[fnName(fn)] = false
+	if len(x.calleeMode) == 1 {
+		x.selectFn = fn
+	}
 	r := x.callFunction(fn, args, nil, false)
 	x.writeLog = x.writeLog[:len(x.writeLog)-1]
 	if x.st == nil {
@@ -803,4 +904,101 @@ func isPrefix(p, q []PathElem) bool {
 		}
 	}
 	return true
+}
+
+type pureEntry struct {
+	result Value
+	snap   map[*Object]Value
+}
+
+// snapshotResult records the contents of the (fresh) objects a result points to.
+func (x *Exec) snapshotResult(v Value, snap map[*Object]Value) {
+	switch vv := v.(type) {
+	case SliceV:
+		if vv.Obj != nil && vv.Obj.Global == nil && vv.Obj.Birth >= 0 {
+			if _, ok := snap[vv.Obj]; !ok {
+				if hv, ok := x.st.heap.m[vv.Obj]; ok {
+					snap[vv.Obj] = hv
+					x.snapshotResult(hv, snap)
+				}
+			}
+		}
+	case PtrV:
+		if vv.Obj != nil && vv.Obj.Global == nil && vv.Obj.Birth >= 0 {
+			if _, ok := snap[vv.Obj]; !ok {
+				if hv, ok := x.st.heap.m[vv.Obj]; ok {
+					snap[vv.Obj] = hv
+					x.snapshotResult(hv, snap)
+				}
+			}
+		}
+	case StructV:
+		for _, f := range vv.F {
+			x.snapshotResult(f, snap)
+		}
+	case ArrayV:
+		for _, e := range vv.E {
+			x.snapshotResult(e, snap)
+		}
+	case TupleV:
+		for _, e := range vv.E {
+			x.snapshotResult(e, snap)
+		}
+	case IfaceV:
+		if vv.V != nil {
+			x.snapshotResult(vv.V, snap)
+		}
+	}
+}
+
+// cloneResult re-creates a memoised result over fresh objects with the recorded contents.
+func (x *Exec) cloneResult(v Value, snap map[*Object]Value, done map[*Object]*Object) Value {
+	cloneObj := func(o *Object) *Object {
+		if o == nil {
+			return nil
+		}
+		hv, ok := snap[o]
+		if !ok {
+			return o
+		}
+		if n, ok := done[o]; ok {
+			return n
+		}
+		n := x.newObject(o.Typ, o.Name)
+		done[o] = n
+		x.st.heap.m[n] = x.cloneResult(hv, snap, done)
+		return n
+	}
+	switch vv := v.(type) {
+	case SliceV:
+		vv.Obj = cloneObj(vv.Obj)
+		return vv
+	case PtrV:
+		vv.Obj = cloneObj(vv.Obj)
+		return vv
+	case StructV:
+		f := make([]Value, len(vv.F))
+		for i := range f {
+			f[i] = x.cloneResult(vv.F[i], snap, done)
+		}
+		return StructV{f}
+	case ArrayV:
+		e := make([]Value, len(vv.E))
+		for i := range e {
+			e[i] = x.cloneResult(vv.E[i], snap, done)
+		}
+		return ArrayV{e}
+	case TupleV:
+		e := make([]Value, len(vv.E))
+		for i := range e {
+			e[i] = x.cloneResult(vv.E[i], snap, done)
+		}
+		return TupleV{e}
+	case IfaceV:
+		if vv.V != nil {
+			vv.V = x.cloneResult(vv.V, snap, done)
+		}
+		return vv
+	}
+	return v
 }
